@@ -142,7 +142,7 @@ def laws(mon, rng):
 
 
 def float_exact(mon, rng):
-    m = int(rng.choice([2, 3, 4]))
+    m = int(rng.choice([2, 3, 4, 5]))
     label, order = gen.random_order(rng, m)
     W = order.ordering_cone.W
     WF = [[Fraction(float(x)) for x in row] for row in W]
@@ -161,7 +161,7 @@ def float_exact(mon, rng):
         mn = float(min(vals))
         mag = float(max(np.abs(a).max(), np.abs(b).max()))
         tol = 1e-12 * (1e-300 + mag)
-        got = as_bool(order.dominates(a, b))
+        got = as_bool(order.dominates(gen.exotic(a, rng), gen.exotic(b, rng)) if rng.random() < 0.3 else order.dominates(a, b))
         decisive = abs(mn) > tol
         mon.event(case_hash("F", W, a, b), decisive, f"float/{label}")
         mon.count("float_events")
@@ -292,7 +292,7 @@ def shard(mon, tier, rng, shard_no, nshards):
     if insb.shape != (len(Xb),) or ((insb != expb) & ~nearb).any():
         mon.violation("is_inside:large-batch", f"{label}: batched is_inside over {len(Xb)} rows differs from the per-row facet test in "
                       f"{int(((insb != expb) & ~nearb).sum()) if insb.shape == (len(Xb),) else 'all'} rows", {"W": Wb, "n": len(Xb)})
-    Ks = [3, 4, 5, 6, 8, 12, 24]
+    Ks = [3, 4, 5, 6, 8, 12, 24, 36]
     for j in range(2 if tier == "quick" else 12):
         icecream_geometry(mon, rng, float(np.round(rng.uniform(5, 85), 2)), int(Ks[(shard_no + j) % len(Ks)]))
     if len(mon.samples) < 2:
